@@ -106,13 +106,14 @@ def inverse3(t1: str, t2: str, t3: str, q1: bool, q2: bool, q3: bool) -> bool:
     return TokenParser().parse(s) == [t1, t2, t3]
 
 
-TOK_WS = "a \t\r\n"
+TOK_WS = "a \t\r\n" + BS
 
 
 def inverse_ws(t1: str, t2: str, q1: bool, q2: bool) -> bool:
     """
     pre: len(t1) == PART["l1"] and len(t2) == PART["l2"]
     pre: all(c in TOK_WS for c in t1) and all(c in TOK_WS for c in t2)
+    pre: expressible(t1) and expressible(t2)
     post: _
     """
     # whitespace of every kind INSIDE a quoted token (space, tab, CR, LF and their combinations) is kept as it is
@@ -176,10 +177,10 @@ def raw_equiv_quoted(t1: str, t2: str, q1: bool, q2: bool) -> bool:
 
 
 # ---- wrapping is repeatable: what an earlier wrapper (or whoever used it) did to its token list never shows in a later wrapper of the same input
-LINES = ["help deploy", "deploy", "deploy -h", "deploy x -- -h", "help", "", "deploy --file -- -y", 'say "hello', "it's", 'deploy "a b" \'c\'']
+LINES = ["help deploy", "deploy", "deploy -h", "deploy x -- -h", "help", "", "deploy --file -- -y", 'say "hello', "it's", 'deploy "a b" \'c\'', "deploy x -- -- -y"]
 # what each line's tokens are, and - where the statement fixes it - the command and assignment it resolves to (None = only string/argv equality is checked)
-TOKENS = {0: ["help", "deploy"], 1: ["deploy"], 2: ["deploy", "-h"], 3: ["deploy", "x", "--", "-h"], 4: ["help"], 5: [], 6: ["deploy", "--file", "--", "-y"], 7: ["say", "hello"], 8: ["its"], 9: ["deploy", "a b", "c"]}
-EXPECT = {1: ("deploy", {}, {}), 3: ("deploy", {"target": "x", "more": ["-h"]}, {}), 6: ("deploy", {"target": "-y"}, {"file": "dflt"}), 9: ("deploy", {"target": "a b", "more": ["c"]}, {})}
+TOKENS = {0: ["help", "deploy"], 1: ["deploy"], 2: ["deploy", "-h"], 3: ["deploy", "x", "--", "-h"], 4: ["help"], 5: [], 6: ["deploy", "--file", "--", "-y"], 7: ["say", "hello"], 8: ["its"], 9: ["deploy", "a b", "c"], 10: ["deploy", "x", "--", "--", "-y"]}
+EXPECT = {1: ("deploy", {}, {}), 3: ("deploy", {"target": "x", "more": ["-h"]}, {}), 6: ("deploy", {"target": "-y"}, {"file": "dflt"}), 9: ("deploy", {"target": "a b", "more": ["c"]}, {}), 10: ("deploy", {"target": "x", "more": ["--", "-y"]}, {})}
 
 
 def _history_app():
@@ -269,7 +270,7 @@ def conditions(tier):
     for l1 in range(0, (2 if quick else 3) + 1):
         for l2 in range(0, 3):
             conds.append({"name": "inverse_ws[%d,%d]" % (l1, l2), "fn": inverse_ws, "timeout": t, "part": {"l1": l1, "l2": l2},
-                          "bounds": "two quoted tokens of lengths %d,%d over {a,space,tab,CR,LF}, 2x2 quote styles, separated by CR LF" % (l1, l2)})
+                          "bounds": "two quoted tokens of lengths %d,%d over {a,space,tab,CR,LF,backslash} (backslash not last), 2x2 quote styles, separated by CR LF" % (l1, l2)})
     conds.append({"name": "raw_history", "fn": raw_history, "timeout": t,
                   "bounds": "a command string from %r wrapped and then run through an application / its token list shortened / extended; afterwards a second wrapper of any of the strings: tokens, option tokens and the command and arguments it resolves to equal those of the argv form" % (LINES,)})
     conds.append({"name": "inverse_twin", "fn": inverse_twin, "timeout": t, "expect": "refute", "bounds": "reachability twin"})
